@@ -102,6 +102,10 @@ func cmdExec(args []string) {
 	}
 	c := mk()
 	defer c.Close()
+	prefix := name
+	if px, ok := c.(interface{ Prefix() string }); ok {
+		prefix = px.Prefix()
+	}
 	in, err := os.Open(args[1])
 	if err != nil {
 		fatal(err)
@@ -145,7 +149,7 @@ func cmdExec(args []string) {
 			impl.Line(line)
 			continue
 		}
-		if toks[0] != name {
+		if toks[0] != prefix {
 			fatal("op for other component: " + line)
 		}
 		caseLines = append(caseLines, line)
@@ -157,7 +161,7 @@ func cmdExec(args []string) {
 		}
 		st.Ops[rt[0]]++
 		st.Outcomes[rt[0]+":"+outcomeClass(out)]++
-		res.Line(name + " " + strings.Join(append(rt, extra...), " "))
+		res.Line(prefix + " " + strings.Join(append(rt, extra...), " "))
 		impl.Line(out)
 		// flush per line so a crash leaves the prefix behind
 		res.Flush()
